@@ -1,6 +1,7 @@
 #!/bin/bash
 # allseeds.sh: regression over the seeded changes: each patch is applied to /repo, the check of its property must exit 1 with a VIOLATION line, /repo is restored
 cd /verif
+export VERIF_NO_EVIDENCE=1
 if ! git -C /repo diff --quiet; then echo "/repo has uncommitted changes"; exit 9; fi
 ok=0; n=0
 for d in seeded/*/; do
